@@ -124,16 +124,28 @@ def check_filter(ctx, out, dv):
     if fclos is None:
         out.inst("C14.filter", 0, 2, note="filter closure over the factory table not found")
         return
-    # resolve upvars to parameters of detect_validators
+    # resolve upvars to parameters of detect_validators (a captured closure contributes what it
+    # captured itself: `let is_selected = |n| ..; .filter(|(n, _)| is_selected(n))`)
     up2param = {}
-    for i, j, s in dv.assigns():
-        rv = s["rv"]
-        if rv["k"] == "agg" and rv.get("path") == fclos.defpath:
-            for nm, op in zip(rv.get("fields", []), rv["ops"]):
-                labs = ctx.prov.read_operand(dv, op)
-                ps = {l[1] for l in labs if l[0] == "param"}
-                if len(ps) == 1:
-                    up2param[nm] = ps.pop()
+
+    def captures_of(path, depth=0):
+        for i, j, s in dv.assigns():
+            rv = s["rv"]
+            if rv["k"] == "agg" and rv.get("agg") == "closure" and rv.get("path") == path:
+                for nm, op in zip(rv.get("fields", []), rv["ops"]):
+                    labs = ctx.prov.read_operand(dv, op)
+                    ps = {l[1] for l in labs if l[0] == "param"}
+                    if len(ps) == 1:
+                        up2param[nm] = ps.pop()
+                    elif depth < 3:
+                        from engine.desugar import resolve_closure
+                        tgt, cap = resolve_closure(ctx.facts, dv.blocks, op)
+                        if tgt is not None and not isinstance(tgt, tuple):
+                            captures_of(tgt.defpath, depth + 1)
+    captures_of(fclos.defpath)
+    # the closure in its normalised view (closures it calls are inlined)
+    fclos_raw = fclos
+    fclos = ctx.inl(fclos, skip=ctx.domain_api, tag="domain", sugar=True)
     # which parameter is which: from the call in main
     main = ctx.main_view()
     role_of_param = {}
@@ -400,6 +412,25 @@ def check_once(ctx, out, dv, rule="C11.once"):
     n = 0
     pops = [(bi, t) for bi, t in dv.calls() if callee_matches(t, r"Vec::<T, A>::pop$")]
     dets = [(bi, t) for bi, t in dv.calls() if callee_matches(t, r"validators::ValidatorDetector::detect$")]
+    drained = None
+    if not pops:
+        # the other complete way of taking every pending detector: `for d in pending.drain(..)[.rev()]`
+        # (or `into_iter()` of the list by value), the list being re-assigned afterwards
+        from rules.shared import TRUNCATING
+        for bi, t in dv.calls():
+            if callee_matches(t, r"Iterator>?::next$") and "ValidatorDetector" in (t.get("arg_tys") or [""])[0]:
+                e = E.operand(t["args"][0])
+                cs = [c for c in walk(e) if c[0] == "call"]
+                src = [c for c in cs if re.search(r"Vec::<T, A>::drain$|IntoIterator>?::into_iter$", c[1])]
+                trunc = [c[1].split("::")[-1] for c in cs if TRUNCATING.search(c[1])]
+                full = all(any(a[0] == "agg" and a[1].endswith("RangeFull") for a in c[2][1:]) for c in src if c[1].endswith("::drain"))
+                if src and not trunc and full:
+                    pops = [(bi, t)]
+                    inner = src[-1]
+                    drained = inner
+                elif src:
+                    out.viol(rule, "%s|partial-scan" % rule, ctx.where(dv, t["span"]),
+                             "the pending detectors are taken through %s: not every pending detector is asked about the current block" % (trunc or ["a partial drain range"]))
     if len(pops) != 1 or len(dets) != 1:
         # an index scan that removes in place: after `remove(i)` / `swap_remove(i)` another element sits
         # at i; advancing i on that path skips it (it is never asked about the current block)
@@ -425,7 +456,12 @@ def check_once(ctx, out, dv, rule="C11.once"):
         return
     pbi, pt = pops[0]
     dbi, dt = dets[0]
-    wl_local = util.base_local(dv, pt["args"][0])
+    if drained is None:
+        wl_local = util.base_local(dv, pt["args"][0])
+    else:
+        # the Vec the drain / into_iter call was made on
+        dct = dv.blocks[drained[3]]["term"] if len(drained) > 3 and isinstance(drained[3], int) else None
+        wl_local = util.base_local(dv, dct["args"][0]) if dct else None
     # detector local = payload of the pop
     det_labs_fn = lambda op: ctx.prov.read_operand(dv, op)
     ploop = cfg.innermost_loop(pbi)
@@ -454,7 +490,7 @@ def check_once(ctx, out, dv, rule="C11.once"):
         e = E.operand(t["args"][1])
         while e[0] == "proj":
             e = e[1]
-        return e[0] == "call" and re.search(r"Vec::<T, A>::pop$", e[1]) is not None
+        return e[0] == "call" and (re.search(r"Vec::<T, A>::pop$", e[1]) is not None or (len(e) > 3 and e[3] == pbi))
     requeue = [(bi, t) for bi, t in pushes if pushes_detector(t)]
     header = ploop
     # (1) None arm: every path back to the pop loop header passes a re-queue push
@@ -487,6 +523,12 @@ def check_once(ctx, out, dv, rule="C11.once"):
     for bi, t in extends:
         if util.base_local(dv, t["args"][0]) == wl_local and util.base_local(dv, t["args"][1]) in requeue_targets:
             ext_ok.append(bi)
+    # ... or the (emptied) work list is replaced by the undetected ones: `pending = undetected`
+    for bi, j, s in dv.assigns():
+        if s["lhs"]["l"] == wl_local and not s["lhs"]["p"] and s["rv"]["k"] == "use" and bi not in pregion:
+            pl = util.op_place(s["rv"]["op"])
+            if pl and not pl["p"] and (pl["l"] in requeue_targets or util.copy_root(dv, pl["l"]) in requeue_targets):
+                ext_ok.append(bi)
     pop_none = util.normal_loop_exit(dv, cfg, ploop, cfg.loops()[ploop], pbi)
     # outer loop header(s): loops containing the pop loop
     outer = [h for h in cfg.loops_containing(pbi) if h != ploop]
